@@ -17,6 +17,10 @@ import random
 
 from . import common
 
+class IterationBoundExceeded(Exception):
+    """raised by the observation wrapper when the hill-climb search runs past its termination bound"""
+
+
 _state = {"ready": False, "iters": 0, "impr": 0, "raw": None, "min_improve": 500, "steps": None}
 
 
@@ -32,6 +36,15 @@ def setup():
 
     def fix(self, indices, *a, **k):
         _state["iters"] += 1
+        # watchdog: the search loop runs while (best > limit and i < max_iterations) or (i - last improvement < MIN_ITERATIONS_
+        # IMPROVE); every improvement strictly lowers best_size, so i can never exceed max_iterations + MIN_ITERATIONS_IMPROVE *
+        # (improvements + 1).  Far beyond that bound the run is cut off and recorded as an exception of the allocator: the
+        # Terminates clause of Alloc.tla decides (a search that never ends must become a verdict, not a hanging check)
+        bound = int(self.max_iterations) + _state["min_improve"] * (_state["impr"] + 2) + 1000
+        if _state["iters"] > bound:
+            raise IterationBoundExceeded("hill climb still searching after %d iterations (bound %d = max_iterations %d + "
+                                         "MIN_ITERATIONS_IMPROVE x (improvements %d + 2) + 1000)" % (
+                                             _state["iters"], bound, int(self.max_iterations), _state["impr"]))
         steps = _state["steps"]
         if steps is None:
             return orig_fix(self, indices, *a, **k)
